@@ -1383,8 +1383,16 @@ func (e *CoreExtension) filterFirst(value interface{}, args ...interface{}) (int
 		}
 		return nil, nil
 	case map[string]interface{}:
-		for _, val := range v {
-			return val, nil // Return first value found
+		// Maps are visited in key order
+		first := ""
+		found := false
+		for k := range v {
+			if !found || k < first {
+				first, found = k, true
+			}
+		}
+		if found {
+			return v[first], nil
 		}
 		return nil, nil
 	}
